@@ -50,10 +50,10 @@ LEVELS = {
         "modelled": "pathEscape/pathUnescape, computeVarValues; params.go not modelled",
     },
     "C08": {
-        "technique": "Coq theorems: stream primitives and the transforming reader are functions of the byte stream, by induction over chunk lists + differential reader/segments suites",
-        "level_text": "Proved for every chunking of the request body (and with or without EOF attached to the last chunk): io.ReadFull/CopyN/limit-copy as used by vanguard, readRequestMessage and the whole transformingReader deliver results determined by the concatenated bytes alone (C08_read_full_chunking, C08_copy_limit_chunking, C08_request_message_chunking, C08_transforming_reader_chunking_partial). Partial: the envelopingReader's individual reads and the response writers' independence from Write segmentation are decided by the suites - every generated stream is run under several chunkings and read sizes, every response under four segmentations of the backend's writes, and all must give identical observations (2800+ cases per run).",
-        "level_note": COMMON_NOTE + "Writer-side segmentation independence is checked, not proved.",
-        "modelled": "hardLimitReader, exactLengthReader, envelopingReader, transformingReader, readRequestMessage",
+        "technique": "Coq theorems by induction over chunk lists (request side) and over handler scripts with a log-obliviousness argument (response side) + differential reader/segments suites",
+        "level_text": "Proved for every chunking of the request body (and with or without EOF attached to the last chunk): io.ReadFull/CopyN/limit-copy as used by vanguard, readRequestMessage and the whole transformingReader deliver results determined by the concatenated bytes alone (C08_read_full_chunking, C08_copy_limit_chunking, C08_request_message_chunking, C08_transforming_reader_chunking_partial). Proved for the response side: for every handler script, every position in it and every placement of request-side failures, handing the same bytes to Write in one piece or cut anywhere into non-empty pieces leaves on the client's connection the same head, the same body bytes between the same flushes, the same end, and gives the same close outcome and the same all-Writes-succeeded verdict, for all body writers (C08_write_split_invisible, C08_write_chunking_invisible; the key lemma is that nothing on the response side reads its own log, C08_response_side_never_reads_its_log). Still partial: the envelopingReader's individual reads mirror the client's chunks (only their concatenation is invariant); decided by the reader suite. Every run: each generated stream under several chunkings and read sizes, each response under four segmentations of the backend's writes, all must give identical observations (3600+ cases).",
+        "level_note": COMMON_NOTE + "envelopingReader chunk independence is checked, not proved. responseWriter.Flush is a no-op in the code and in the model.",
+        "modelled": "hardLimitReader, exactLengthReader, envelopingReader, transformingReader, readRequestMessage; responseWriter with envelopingWriter, transformingWriter, errorWriter, limitWriter",
     },
     "C09": {
         "technique": "Coq characterisation of envelope reading by the bytes present (all 256 flag bytes per protocol by lifted finite sweep) + differential reader/respflow suites with cuts at every class of offset",
